@@ -88,8 +88,8 @@ def run_seam(shard, tier, seed, res):
     lv = "bnf" if (n <= 3 or (tier != "quick" and n == 4 and ncl <= 2)) else "bf"
     if n >= 4 and ncl == 3 and tier == "quick":
         return
-    if n == 5 and ncl == 3:
-        return
+    if n == 5 and ncl >= 2:
+        return  # n = 5 is explored with a single input cluster only (cleaning): the 2- and 3-cluster spaces are too large
     for colours in [tuple([0] * (n - ck) + [1] * ck)]:
         for cl in itertools.product(subsets, repeat=ncl):
             for levels in itertools.product(lv, repeat=pairs):
@@ -278,7 +278,7 @@ def describe(tier, seed):
                 "F3 (molecules in a box) and degenerate cells x parameter deviations x the seed-choice tree (scripted chooser: first choice %s, <=%d later deviations) + the real generator with 2 seeds; (C) histories: sequences of get_clusters calls on ONE SBC instance (same Atoms object modified in place; A,B,A,B incl. pairs with equal atom counts) vs fresh instances; "
                 "states = executions of get_clusters / of the pipeline, transitions = seed choices made / pipeline stages" % ("all atoms for n<=8, else 3-6 class representatives" if tier == "quick" else "all atoms for n<=20", 1 if tier == "quick" else 2),
         "nontrivial_rule": "defective/perturbed structures (label with a deviation) and seam inputs whose number of clusters changed",
-        "bounds": {"structures": len(structs), "by_family": fam, "param_deviations": len(_sbcfam.PARAM_DEVS) - 1, "seam_atoms": "2-4" if tier == "quick" else "2-5", "max_runs_per_structure": 64 if tier == "quick" else 200},
+        "bounds": {"structures": len(structs), "by_family": fam, "param_deviations": len(_sbcfam.PARAM_DEVS) - 1, "seam_atoms": "2-4" if tier == "quick" else "2-4 with <=3 clusters, 5 with one cluster", "max_runs_per_structure": 64 if tier == "quick" else 200},
         "assumptions": ["connectivity is evaluated with brute-force minimum-image distances on the caller's input structure",
                         "parameter deviations are applied one at a time, to base structures and a fixed slice of the others",
                         "interception of numpy.random.default_rng inside matid.clustering.sbc; if lost the evidence counts 'interception_lost'"],
